@@ -16,6 +16,7 @@
      19 SIGSTOP, 20 SIGTSTP, 21 SIGTTIN, 22 SIGTTOU   the worker is stopped, it does not
         terminate (a hanging worker: not modelled, see the assumptions of the check). *)
 From Coq Require Import ZArith List Bool.
+From CTM Require Import Base.Sx.
 Import ListNotations.
 
 Definition exit_arg_ok (k : Z) : Prop := (- 2 ^ 31 <= k < 2 ^ 31)%Z.
@@ -24,3 +25,50 @@ Definition non_terminating_signals : list Z := [2; 13; 17; 18; 19; 20; 21; 22; 2
 
 Definition terminating_signal (s : Z) : bool :=
   ((1 <=? s) && (s <=? 64))%Z && negb (existsb (Z.eqb s) non_terminating_signals).
+
+(* WHAT `Raises` MEANS (audit 4, A6).  Pool.exit_code_of Raises = 1 is the exit code of a worker whose
+   target raises an instance of a subclass of `Exception`.  multiprocessing's BaseProcess._bootstrap treats
+   SystemExit apart (python 3.12, observed on forked workers; harness tag 1407):
+     raise SystemExit() / sys.exit()      code None      -> exitcode 0      (NOT a failure any parent can see)
+     raise SystemExit(k), k an int                       -> exitcode k mod 256 (0 for k = 0, 256, ...)
+     raise SystemExit('text') (neither None nor int)     -> exitcode 1
+     raise KeyboardInterrupt / any other BaseException   -> exitcode 1
+     raise RuntimeError / ValueError ... (Exception)     -> exitcode 1
+   So `Raises` stands for RException (and, as far as the exit code goes, for every class but SystemExit
+   with code None or a multiple of 256).  In run_mapping the difference matters a second time: the clause
+   is `except Exception`, which a KeyboardInterrupt / SystemExit raised in the body of `try` skips
+   (Model/RunEffects.v header). *)
+Inductive raised_class :=
+| RException                         (* an instance of a subclass of Exception *)
+| RSystemExitNone                    (* SystemExit with code None *)
+| RSystemExitInt (k : Z)             (* SystemExit(k), k an int (a C int: exit_arg_ok) *)
+| RSystemExitOther                   (* SystemExit(x), x neither None nor an int *)
+| RBaseException.                    (* KeyboardInterrupt, GeneratorExit, ... *)
+Definition raise_exit_code (r : raised_class) : Z :=
+  match r with
+  | RException => 1
+  | RSystemExitNone => 0
+  | RSystemExitInt k => k mod 256
+  | RSystemExitOther => 1
+  | RBaseException => 1
+  end%Z.
+(* caught by `except Exception` *)
+Definition is_exception (r : raised_class) : bool := match r with RException => true | _ => false end.
+
+(* wire, tag 1407: (class arg) with class 0 Exception, 1 SystemExit(None), 2 SystemExit(arg),
+   3 SystemExit('text'), 4 KeyboardInterrupt -> (exit code, caught by `except Exception`) *)
+Definition run_raise_exit_code_sx (x : sx) : sx :=
+  match x with
+  | L [m; a] =>
+      match sx_Z m, sx_Z a with
+      | Some m, Some a =>
+          match (match m with
+                 | 0 => Some RException | 1 => Some RSystemExitNone | 2 => Some (RSystemExitInt a)
+                 | 3 => Some RSystemExitOther | 4 => Some RBaseException | _ => None end)%Z with
+          | Some r => sx_ok (L [I (raise_exit_code r); of_bool (is_exception r)])
+          | None => sx_bad
+          end
+      | _, _ => sx_bad
+      end
+  | _ => sx_bad
+  end.
